@@ -9,7 +9,9 @@ Import ListNotations.
 Open Scope Z_scope.
 
 Definition Orphan (s : st) : Prop := conn s = false /\ ct s = CIdle /\ timer s = None.
-Definition SyncStopped (s : st) : Prop := tp s = false /\ conn s = false /\ timer s = None.
+(* what stop() (or disconnect()) leaves, all flavours: no protocol reference, no link, no
+   watchdog timer; a dial loop may still be running (it ends at its next loop test) *)
+Definition Stopped (s : st) : Prop := tp s = false /\ conn s = false /\ timer s = None.
 
 (* case split on the atomic scrutinees left by vm_compute: variables and applications of
    the abstract comparisons *)
@@ -41,7 +43,9 @@ Ltac enum_state s H :=
 
 Section Ctl.
 Variables (add zmax : Z -> Z -> Z) (leb : Z -> Z -> bool) (wdc : Z -> Z -> Z -> Z -> wd_res).
-Notation gs := (gstep add zmax leb wdc).
+Notation gs := (gstep add zmax leb wdc aser_guard_protocol atcp_guard_protocol).
+(* the asyncio connect loops before the D21 repair *)
+Notation gs_unfixed := (gstep add zmax leb wdc false false).
 
 Lemma g_step_inv : forall fl p s e, Inv fl s -> Inv fl (fst (gs fl p s e)).
 Proof.
@@ -78,19 +82,31 @@ Proof.
   destruct fl, e, tp_; vm_compute; split_ifs; fin.
 Qed.
 
-Lemma g_sync_stopped : forall fl p s e, is_async fl = false -> SyncStopped s ->
-  SyncStopped (fst (gs fl p s e)) /\ quiet (snd (gs fl p s e)) = true.
+(* all four flavours (the asyncio ones since the D21 repair): once the protocol reference
+   is gone every event leaves it so and causes nothing but a sleep of the dial loop *)
+Lemma g_stopped : forall fl p s e, Stopped s ->
+  Stopped (fst (gs fl p s e)) /\ quiet (snd (gs fl p s e)) = true.
 Proof.
-  intros fl [rt sl] [n tp_ cn c ca ch di tm ef sp] e Hfl (H1 & H2 & H3). cbn in H1, H2, H3. subst.
-  destruct fl; try discriminate; destruct e, c; vm_compute; split_ifs; fin.
+  intros fl [rt sl] [n tp_ cn c ca ch di tm ef sp] e (H1 & H2 & H3). cbn in H1, H2, H3. subst.
+  destruct fl; destruct e, c; vm_compute; split_ifs; fin.
 Qed.
 
-Lemma g_stop_sync : forall fl p s, is_async fl = false -> Inv fl s ->
-  SyncStopped (fst (gs fl p s Stop)).
+Lemma g_stop_stopped : forall fl p s, Inv fl s -> Stopped (fst (gs fl p s Stop)).
 Proof.
-  intros fl [rt sl] s Hfl H. enum_state s H;
-  destruct fl; try discriminate; try (destruct (H2 _ eq_refl); discriminate); clear H1 H2 H3;
+  intros fl [rt sl] s H. enum_state s H;
+  destruct fl; try (destruct (H2 _ eq_refl); discriminate); clear H1 H2 H3;
   try destruct c; vm_compute; split_ifs; fin.
+Qed.
+
+(* more precisely: a stopped dial loop makes no further attempt.  From a Stopped state the
+   only outputs are sleeps, and each sleep needs a pending dial to fail, which only the
+   loop that was already dialling at stop() can provide: after its sleep the loop test
+   finds the protocol gone *)
+Lemma g_stopped_no_dial : forall fl p s e, Stopped s -> ct s <> CDialing ->
+  ct (fst (gs fl p s e)) <> CDialing /\ snd (gs fl p s e) = [].
+Proof.
+  intros fl [rt sl] [n tp_ cn c ca ch di tm ef sp] e (H1 & H2 & H3) Hc. cbn in H1, H2, H3, Hc. subst.
+  destruct fl; destruct e, c; try (exfalso; apply Hc; reflexivity); vm_compute; split_ifs; fin.
 Qed.
 
 Lemma g_stop_async : forall fl p s, is_async fl = true -> Inv fl s -> stoppable s ->
@@ -133,15 +149,29 @@ Proof.
   destruct fl; try discriminate; vm_compute; rewrite ?Hf; vm_compute; fin.
 Qed.
 
-(* stop() while the start() coroutine is still dialling: the loop goes on *)
+(* D21, the loop header before the repair (`while True:`): stop() while the start()
+   coroutine is still dialling: the loop goes on *)
+Lemma g_stop_initial_dial_unfixed : forall fl p, is_async fl = true ->
+  leb (p_rt p) 0 = false -> leb (add 0 (p_rt p)) (add 0 (p_rt p)) = true ->
+  let s1 := fst (gs_unfixed fl p init Stop) in
+  let s2 := fst (gs_unfixed fl p s1 AttemptFail) in
+  snd (gs_unfixed fl p s1 AttemptFail) = [Sleep (p_rt p)] /\
+  snd (gs_unfixed fl p s2 (Tick (p_rt p))) = [Attempt (zmax (add 0 (p_rt p)) 0)].
+Proof.
+  intros fl [rt sl] Hfl H1 H2. cbn in H1, H2.
+  destruct fl; try discriminate; vm_compute; rewrite ?H1; vm_compute; rewrite ?H2; vm_compute; split; reflexivity.
+Qed.
+
+(* the same history with the repaired header: the sleep ends, the loop test fails, no dial *)
 Lemma g_stop_initial_dial : forall fl p, is_async fl = true ->
   leb (p_rt p) 0 = false -> leb (add 0 (p_rt p)) (add 0 (p_rt p)) = true ->
   let s1 := fst (gs fl p init Stop) in
   let s2 := fst (gs fl p s1 AttemptFail) in
-  snd (gs fl p s2 (Tick (p_rt p))) = [Attempt (zmax (add 0 (p_rt p)) 0)].
+  snd (gs fl p s1 AttemptFail) = [Sleep (p_rt p)] /\
+  snd (gs fl p s2 (Tick (p_rt p))) = [] /\ ct (fst (gs fl p s2 (Tick (p_rt p)))) = CIdle.
 Proof.
   intros fl [rt sl] Hfl H1 H2. cbn in H1, H2.
-  destruct fl; try discriminate; vm_compute; rewrite ?H1; vm_compute; rewrite ?H2; vm_compute; reflexivity.
+  destruct fl; try discriminate; vm_compute; rewrite ?H1; vm_compute; rewrite ?H2; vm_compute; repeat split; reflexivity.
 Qed.
 
 End Ctl.
@@ -171,7 +201,7 @@ Lemma outputs_cons : forall fl p s e es,
   outputs fl p s (e :: es) = snd (step fl p s e) ++ outputs fl p (fst (step fl p s e)) es.
 Proof.
   intros. unfold outputs, goutputs, step. cbn [grun].
-  destruct (gstep Z.add Z.max Z.leb wd_check fl p s e) as [s' o]. reflexivity.
+  destruct (gstep Z.add Z.max Z.leb wd_check aser_guard_protocol atcp_guard_protocol fl p s e) as [s' o]. reflexivity.
 Qed.
 
 Lemma final_inv : forall fl p es s, Inv fl s -> Inv fl (final fl p s es).
@@ -261,22 +291,76 @@ Proof.
 Qed.
 
 (* --- quiet after stop *)
+Lemma ctask_dialing_dec : forall c : ctask, {c = CDialing} + {c <> CDialing}.
+Proof. intros [| |u]; [right|left|right]; try reflexivity; discriminate. Qed.
+
 Lemma quiet_app : forall a b, quiet (a ++ b) = quiet a && quiet b.
 Proof. intros. apply forallb_app. Qed.
 
-Lemma sync_stopped_run : forall fl p es s, is_async fl = false -> SyncStopped s ->
-  quiet (outputs fl p s es) = true.
+Lemma stopped_run : forall fl p es s, Stopped s -> quiet (outputs fl p s es) = true.
 Proof.
-  induction es as [|e es IH]; intros s Hfl H; [reflexivity|].
+  induction es as [|e es IH]; intros s H; [reflexivity|].
   rewrite outputs_cons, quiet_app.
-  destruct (g_sync_stopped Z.add Z.max Z.leb wd_check fl p s e Hfl H) as [H1 H2].
+  destruct (g_stopped Z.add Z.max Z.leb wd_check fl p s e H) as [H1 H2].
   unfold step. rewrite H2. apply IH; assumption.
 Qed.
 
+(* every flavour, every state satisfying the invariant (in particular: stop() while the
+   first connect loop of start() is still running) *)
+Lemma quiet_after_stop : forall fl p s es, Inv fl s ->
+  quiet (outputs fl p (fst (step fl p s Stop)) es) = true.
+Proof. intros. apply stopped_run. apply g_stop_stopped; assumption. Qed.
+
 Lemma quiet_after_stop_sync : forall fl p s es, is_async fl = false -> Inv fl s ->
   quiet (outputs fl p (fst (step fl p s Stop)) es) = true.
-Proof. intros. apply sync_stopped_run; [assumption|]. apply g_stop_sync; assumption. Qed.
+Proof. intros. apply quiet_after_stop; assumption. Qed.
 
+Lemma quiet_after_stop_async_full : forall fl p s es, is_async fl = true -> Inv fl s ->
+  quiet (outputs fl p (fst (step fl p s Stop)) es) = true.
+Proof. intros. apply quiet_after_stop; assumption. Qed.
+
+(* no dial after stop(): once the loop is not in a dial, nothing at all is output *)
+Lemma stopped_no_dial_run : forall fl p es s, Stopped s -> ct s <> CDialing ->
+  outputs fl p s es = [].
+Proof.
+  induction es as [|e es IH]; intros s H Hc; [reflexivity|].
+  rewrite outputs_cons.
+  destruct (g_stopped Z.add Z.max Z.leb wd_check fl p s e H) as [H1 _].
+  destruct (g_stopped_no_dial Z.add Z.max Z.leb wd_check fl p s e H Hc) as [H3 H4].
+  unfold step. rewrite H4. apply IH; assumption.
+Qed.
+
+Lemma stopped_dialing_step : forall fl p s e, Stopped s -> ct s = CDialing ->
+  (snd (step fl p s e) = [Sleep (p_rt p)] /\ ct (fst (step fl p s e)) <> CDialing)
+  \/ snd (step fl p s e) = [].
+Proof.
+  intros fl [rt sl] [n tp_ cn c ca ch di tm ef sp] e (H1 & H2 & H3) Hc. cbn in H1, H2, H3, Hc. subst.
+  destruct fl; destruct e; try (right; vm_compute; reflexivity);
+  try (left; vm_compute; split; [reflexivity|discriminate]).
+  all: right; unfold step, gstep, tick; cbn [ct]; destruct (dt <=? 0); reflexivity.
+Qed.
+
+(* the exact form: whatever follows stop(), the only thing that can still be output is the
+   one sleep of the dial that was in flight when stop() was called and then failed *)
+Lemma stopped_at_most_one_sleep : forall fl p es s, Stopped s ->
+  outputs fl p s es = [] \/ outputs fl p s es = [Sleep (p_rt p)].
+Proof.
+  induction es as [|e es IH]; intros s H; [left; reflexivity|].
+  rewrite outputs_cons.
+  destruct (g_stopped Z.add Z.max Z.leb wd_check fl p s e H) as [H1 _]. fold (step fl p s e) in H1.
+  destruct (ctask_dialing_dec (ct s)) as [Hc|Hc].
+  - destruct (stopped_dialing_step fl p s e H Hc) as [[Ho Hn]|Ho]; rewrite Ho.
+    + right. rewrite (stopped_no_dial_run fl p es _ H1 Hn). reflexivity.
+    + apply IH, H1.
+  - left. rewrite <- outputs_cons. apply stopped_no_dial_run; assumption.
+Qed.
+
+Lemma after_stop_at_most_one_sleep : forall fl p s es, Inv fl s ->
+  outputs fl p (fst (step fl p s Stop)) es = [] \/
+  outputs fl p (fst (step fl p s Stop)) es = [Sleep (p_rt p)].
+Proof. intros. apply stopped_at_most_one_sleep. apply g_stop_stopped; assumption. Qed.
+
+(* asyncio, dial loop idle or cancellable (= transport.connect_task): not even that sleep *)
 Lemma quiet_after_stop_async : forall fl p s es, is_async fl = true -> Inv fl s -> stoppable s ->
   outputs fl p (fst (step fl p s Stop)) es = [].
 Proof. intros. apply orphan_run. apply g_stop_async; assumption. Qed.
@@ -299,21 +383,47 @@ Proof.
   apply (connected_stoppable fl); [apply reachable_inv|exact Hc].
 Qed.
 
-Lemma stop_initial_dial_refuted : forall fl p, is_async fl = true -> 0 < p_rt p ->
-  outputs fl p (fst (step fl p init Stop)) [AttemptFail; Tick (p_rt p)] = [Sleep (p_rt p); Attempt (p_rt p)].
+Lemma outputs_unfixed_cons : forall fl p s e es,
+  outputs_unfixed fl p s (e :: es)
+  = snd (step_unfixed fl p s e) ++ outputs_unfixed fl p (fst (step_unfixed fl p s e)) es.
+Proof.
+  intros. unfold outputs_unfixed, goutputs, step_unfixed. cbn [grun].
+  destruct (gstep Z.add Z.max Z.leb wd_check false false fl p s e) as [s' o]. reflexivity.
+Qed.
+
+(* D21 with the loop header before the repair: stop() during the first connect loop, the
+   pending dial fails, reconnect_timeout later the loop dials again *)
+Lemma stop_initial_dial_unfixed_refuted : forall fl p, is_async fl = true -> 0 < p_rt p ->
+  outputs_unfixed fl p (fst (step_unfixed fl p init Stop)) [AttemptFail; Tick (p_rt p)]
+  = [Sleep (p_rt p); Attempt (p_rt p)].
 Proof.
   intros fl p Hfl Hrt.
   assert (H1 : (p_rt p <=? 0) = false) by (apply Z.leb_gt; lia).
   assert (H2 : (0 + p_rt p <=? 0 + p_rt p) = true) by (apply Z.leb_refl).
-  pose proof (g_stop_initial_dial Z.add Z.max Z.leb wd_check fl p Hfl H1 H2) as G. cbv zeta in G.
-  rewrite outputs_cons, outputs_cons. unfold step in *. rewrite G.
-  rewrite g_fail_sleeps by (destruct fl; try discriminate; reflexivity).
-  cbn [snd app]. unfold outputs, goutputs. cbn [grun map concat app].
+  destruct (g_stop_initial_dial_unfixed Z.add Z.max Z.leb wd_check fl p Hfl H1 H2) as [Ga Gb].
+  rewrite outputs_unfixed_cons, outputs_unfixed_cons. unfold step_unfixed in *. rewrite Ga, Gb.
+  unfold outputs_unfixed, goutputs. cbn [grun map concat app].
   rewrite Z.max_l by lia. reflexivity.
 Qed.
 
+(* the same history on the current code: the sleep, then nothing; the loop has ended *)
+Lemma stop_initial_dial_ends : forall fl p, is_async fl = true -> 0 < p_rt p ->
+  outputs fl p (fst (step fl p init Stop)) [AttemptFail; Tick (p_rt p)] = [Sleep (p_rt p)]
+  /\ ct (final fl p (fst (step fl p init Stop)) [AttemptFail; Tick (p_rt p)]) = CIdle.
+Proof.
+  intros fl p Hfl Hrt.
+  assert (H1 : (p_rt p <=? 0) = false) by (apply Z.leb_gt; lia).
+  assert (H2 : (0 + p_rt p <=? 0 + p_rt p) = true) by (apply Z.leb_refl).
+  destruct (g_stop_initial_dial Z.add Z.max Z.leb wd_check fl p Hfl H1 H2) as (Ga & Gb & Gc).
+  split.
+  - rewrite outputs_cons, outputs_cons. unfold step in *. rewrite Ga, Gb. reflexivity.
+  - rewrite final_cons, final_cons. exact Gc.
+Qed.
+
 (* --- retry timing: the sleeping dial loop *)
-Definition guard_ok (fl : flavour) (s : st) : Prop := is_async fl = true \/ tp s = true.
+(* the loop test at the top of the next iteration succeeds: the protocol reference is
+   still set (all four loops test it) *)
+Definition guard_ok (fl : flavour) (s : st) : Prop := tp s = true.
 
 Lemma tick_nonpos : forall fl p s dt, dt <= 0 -> step fl p s (Tick dt) = (s, []).
 Proof.
@@ -321,9 +431,10 @@ Proof.
   reflexivity.
 Qed.
 
-Lemma guard_set_now : forall fl s u, guard_ok fl s -> guard fl (set_now s u) = true.
+Lemma guard_set_now : forall fl s u, guard_ok fl s ->
+  guard aser_guard_protocol atcp_guard_protocol fl (set_now s u) = true.
 Proof.
-  intros fl s u [H|H]; destruct fl; try discriminate; try reflexivity; cbn; exact H.
+  intros fl s u H; destruct fl; cbn; exact H.
 Qed.
 
 Lemma tick_sleeping_reach : forall fl p s u dt, ct s = CSleeping u -> 0 < dt -> now s <= u ->
